@@ -416,7 +416,9 @@ func fileNewBranch(text string) string {
 	return "HEAD"
 }
 
-const preExisting = "# pre-existing file\nappName: keep-me\n"
+// longer than any rendered configuration, and its tail is not valid YAML: an init --force that
+// does not truncate leaves it behind
+var preExisting = "# pre-existing file\nappName: keep-me\n" + strings.Repeat("# filler line of a previous, longer configuration\n", 400) + "threads: 3\nzzz: [unterminated\n"
 
 func splitLinesNL(s string) []string { return strings.Split(s, "\n") }
 
